@@ -20,6 +20,11 @@ structure DevView where
   hbMsg : Bytes
   hbHash : Bytes
   hbPub : Bytes
+  /-- the heartbeat the UI holds (its own key, message and signature) -/
+  uiHbSig : Bytes
+  uiHbMsg : Bytes
+  uiHbHash : Bytes
+  uiHbPub : Bytes
   /-- mode the device was in before / after the request -/
   modeBefore : Nat
   modeAfter : Nat
@@ -35,6 +40,11 @@ def networkName : Nat → String
 def hbFields (d : DevView) : Option (List (String × Json)) :=
   (Der.parse d.hbSig).map fun (r, s) =>
     [("pubKey", hx d.hbPub), ("message", hx d.hbMsg), ("tweak", hx d.hbHash),
+     ("signature", .obj [("r", hx r), ("s", hx s)])]
+
+def uiHbFields (d : DevView) : Option (List (String × Json)) :=
+  (Der.parse d.uiHbSig).map fun (r, s) =>
+    [("pubKey", hx d.uiHbPub), ("message", hx d.uiHbMsg), ("tweak", hx d.uiHbHash),
      ("signature", .obj [("r", hx r), ("s", hx s)])]
 
 /-- the reply the documents prescribe for a genuine device in state `d` (without `errorcode`) -/
@@ -58,7 +68,7 @@ def expectedFields (d : DevView) (cmd : String) (kvs : List (String × Json)) : 
     some [("parameters", .obj [("checkpoint", hx d.checkpoint), ("minimum_difficulty", .int d.minDifficulty),
                                ("network", .str (networkName d.network))])]
   | "signerHeartbeat" => hbFields d
-  | "uiHeartbeat" => hbFields d
+  | "uiHeartbeat" => uiHbFields d
   | _ => none
 
 def c13 (req : Json) (d : DevView) (o : LineObs) : Bool :=
